@@ -60,10 +60,17 @@ theorem se_accept_iff (C : Crypto) (laws : CryptoLaws C) (ch : Chan) (src d : By
       ∃ pt, C.aesDec (src.drop 16) = some pt ∧
         C.hmacOk ch.policy ((image src pt).take (src.length - ch.policy.symSig))
           ((image src pt).drop (src.length - ch.policy.symSig)) = true ∧
-        d = setSizeTrunc (image src pt) (src.length - ch.policy.symSig) := by
+        ∃ padStart, verifyPadding Fixes.current (image src pt) ch.policy.symSig
+            (src.length - ch.policy.symSig) = .inr padStart ∧
+          d = setSizeTrunc (image src pt) padStart := by
   obtain ⟨hp, _⟩ := hs
   unfold recvSym
-  simp only [Fixes.current, hm, hp, ne_eq, not_false_eq_true, or_true, and_self, true_and, if_true,
+  generalize hF : Fixes.current = F
+  have f1 : F.symShort = true := by subst hF; rfl
+  have f2 : F.keys = true := by subst hF; rfl
+  have f3 : F.aesBlock = true := by subst hF; rfl
+  have f4 : F.symPadding = true := by subst hF; rfl
+  simp only [f1, f2, f3, f4, hm, hp, ne_eq, not_false_eq_true, or_true, and_self, true_and, if_true,
     reduceCtorEq, if_false]
   by_cases h1 : src.length < 16 + ch.policy.symSig
   · simp [h1]; omega
@@ -94,9 +101,22 @@ theorem se_accept_iff (C : Crypto) (laws : CryptoLaws C) (ch : Chan) (src d : By
           by_cases hh : C.hmacOk ch.policy ((image src pt).take (src.length - ch.policy.symSig))
               ((image src pt).drop (src.length - ch.policy.symSig)) = true
           · simp only [hh, if_true]
-            constructor
-            · intro h; cases h; exact ⟨by omega, trivial, trivial, pt, rfl, hh, rfl⟩
-            · rintro ⟨_, _, _, pt', h1', _, h3⟩; cases h1'; rw [h3]; rfl
+            subst hF
+            simp only [image] at hh ⊢
+            cases hv : verifyPadding Fixes.current (List.take 16 src ++ pt) ch.policy.symSig
+                (src.length - ch.policy.symSig) with
+            | inl o =>
+              constructor
+              · intro h
+                simp only [] at h
+                subst h
+                exact absurd hv (verifyPadding_inl_not_ok _ _ _ _ _)
+              · rintro ⟨_, _, _, pt', h1', _, ps, h3, _⟩; cases h1'; rw [hv] at h3; cases h3
+            | inr ps =>
+              constructor
+              · intro h; simp only [] at h; cases h
+                exact ⟨by omega, trivial, trivial, pt, rfl, hh, ps, hv, rfl⟩
+              · rintro ⟨_, _, _, pt', h1', _, ps', h3, h4⟩; cases h1'; rw [hv] at h3; cases h3; rw [h4]
           · simp only [hh]
             constructor
             · intro h; simp at h
